@@ -123,7 +123,7 @@ def deep(job, bmax, xb=3, deadline=2400):
 
 
 DES_ASSUME = ["process programs are generated by the driver's validity predicate (documented preconditions only)",
-              "durations are drawn from {0,1,2}: coincidences on one instant are forced, other time values are not explored",
+              "durations are drawn from {0,1,2} on an integer clock starting at 0: coincidences on one instant are forced; the *-fractional-clock jobs of C04, C06 and C14 repeat a configuration on a clock that starts at -0.15 and moves in steps of 0.1; other time values are not explored",
               "deviation bound: executions departing from the canonical script in more than B choices are not explored"]
 DES_NOTE = ("Trusted: the driver (harness/des.c), the monitor for this property (harness/mon_*.inc), the explorer. "
             "The explored transition system is the real library; nothing is modelled separately.")
@@ -279,6 +279,14 @@ def c04_jobs(tier):
     jobs.append(des("event-waiters-p3", "notif", b, dl, procs=3, prios="0,0,1", budget=3,
                     ops="hold0,hold1,tadd1,evsched1,evsched2,waite0,waite1,evcancel0,evcancel1,int1,int2,stop1,exit",
                     script0="evsched2,hold1,evcancel0", script1="waite0,hold1", script2="waite0,hold1"))
+    # the same on a clock that starts below zero and moves in steps of 0.1 (sums that are not exact in binary: instants
+    # that coincide on the integer clock may now lie one unit in the last place apart)
+    jobs.append(des("core-p2-fractional-clock", "notif", b, dl, procs=2, prios="0,0", budget=3, ops=C04_OPS,
+                    script0="hold1,hold1", script1="hold2,hold1", tscale="0.1", t0="-0.15"))
+    jobs.append(des("guards-p3-fractional-clock", "notif", b, dl, procs=3, prios="0,1,0", budget=3, res=1, pool=2, buf=2, oq=1,
+                    pq=1, cond=1, tscale="0.1", t0="-0.15",
+                    ops="hold0,hold1,hold2,tadd1,tadd2,racq0,rrel0,pacq1,pacq2,prel1,bput1,bget1,bget3,oqput0,oqget,cwait0,csig,setx1,int1,exit",
+                    script0="racq0,hold1,rrel0", script1="tadd1,racq0,hold1", script2="tadd2,bget1,hold1"))
     if tier != "quick":
         jobs.append(des("core-p3", "notif", 3, dl, procs=3, prios="0,0,1", budget=3,
                         ops=C04_OPS + ",waitp2,int2,stop2,resume2", script0="hold1,hold1", script1="hold2,hold1",
@@ -314,6 +322,9 @@ def c06_jobs(tier):
             ops="racq0,rrel0," + common + ",int3,prio3.2", script="racq0,hold1,rrel0"),
         des("resource-extremes", "order", 2, dl, procs=4, prios="-9223372036854775808,0,9223372036854775807,0",
             budget=3, res=1, ops="racq0,rrel0,hold0,hold1,int1", script="racq0,hold1,rrel0"),
+        # waiting times on a clock that starts below zero and moves in steps of 0.1
+        des("resource-fractional-clock", "order", b, dl, procs=4, prios="0,1,2,1", budget=3, res=1, tscale="0.1", t0="-0.15",
+            ops="racq0,rrel0,hold0,hold1,hold2,tadd1,int0,int1,prio0.2,prio1.0,prio3.2,exit", script="racq0,hold1,rrel0"),
         # neighbouring priorities where a double (or a difference) cannot tell them apart
         des("resource-adjacent-high", "order", 2, dl, procs=4,
             prios="0,9223372036854775806,9223372036854775807,9007199254740993",
@@ -658,6 +669,13 @@ def c14_jobs(tier):
         des("priorityqueue", "history", b, dl, procs=3, prios="0,1,1", budget=4, pq=2,
             ops="recon,recoff,pqput0,pqput1,pqget,pqcancel,hold0,hold1,tadd1,int0,int1,stop0,exit",
             script0="recon,pqput0,pqput1,pqcancel", script1="hold1,pqget,hold1,recoff", script2="hold1,pqget"),
+        # time stamps and durations that are not exact in binary, recording switched on before and after zero
+        des("pool-fractional-clock", "history", b, dl, procs=3, prios="0,1,2", budget=4, pool=3, tscale="0.1", t0="-0.15",
+            ops="recon,recoff,pacq1,pacq2,ppre2,prel1,prel2,hold0,hold1,hold2,int0,exit",
+            script0="recon,pacq2,hold1,prel2", script1="hold1,pacq2,hold1,recoff", script2="hold2,ppre2,hold1"),
+        des("buffer-fractional-clock", "history", b, dl, procs=3, prios="0,1,1", budget=4, buf=3, tscale="0.1", t0="-0.15",
+            ops="recon,recoff,bput1,bput2,bget1,bget2,hold0,hold1,hold2,int0,exit",
+            script0="recon,bput2,hold1,bput2", script1="bget1,hold1,bget2,recoff", script2="hold1,bget2"),
         # histories of more than 1024 / 2048 samples (the time series' growth thresholds): scripts repeat, nothing is chosen
         des("resource-long", "history", 0, dl, procs=3, prios="0,0,0", budget="1,2400,2400", res=1, cycle=1, maxevents=40000,
             ops="recon", script0="recon", script1="racq0,hold1,rrel0,hold2", script2="hold1,racq0,hold2,rrel0"),
